@@ -290,6 +290,9 @@ func dataList(t tensor.Tensor) (out []any, err error) {
 		return []any{canonScalar(raw)}, nil
 	}
 	n := t.Shape().TotalSize()
+	if n == 0 {
+		return []any{}, nil // gorgonia's Data() panics on an empty tensor
+	}
 	out = make([]any, 0, n)
 	if d, ok := t.(*tensor.Dense); ok && !d.RequiresIterator() {
 		raw = t.Data()
